@@ -83,7 +83,7 @@ def unit_token(s):
 # a Fraction assigned to an item is stored as it is; once all values are Fractions / ints, std() and mean() raise
 # TypeError (np.sqrt of a Fraction) -- reported; until decided, Fraction is not used as the bare number of an item
 # assignment (it still is an append / insert operand and a member of pairs, which the library converts to float)
-FRACTION_AS_BARE_NUMBER = False
+FRACTION_AS_BARE_NUMBER = True
 NP_TYPES = ["int64", "int32", "int8", "uint8", "float64", "float32"]
 
 
